@@ -113,3 +113,127 @@ def run_c20(ctx):
 
 
 REGISTRY["C20"] = {"run": run_c20, "replay": lambda ctx, path: 2}
+
+
+# ---------------------------------------------------------------------------------------------
+def run_c13(ctx):
+    import shutil
+    import tempfile
+    import drv_toml
+    res = Result()
+    rng = ctx.rng
+    states, cnt = tlc.run_states("MCToml.tla", "MCToml.cfg", ctx.work)
+    cnt["name"] = "TOML loader cases: kind x form of every schema key x limits table"
+    res.mc.append(cnt)
+    if not cnt["ok"]:
+        if "is violated" in cnt["out"]:
+            res.mc_failures.append(cnt["out"][cnt["out"].find("Error:"):][:3000])
+        else:
+            raise tlc.TLCError(cnt["out"][-2000:])
+    total = len(states)
+    if ctx.quick:
+        by = {}
+        for st in states:
+            by.setdefault(st["cl"], []).append(st)
+        states = []
+        for cl, quota in (("Ctor", 1500), ("KeyError", 500), ("ValueError", 700), ("Either", 300)):
+            pool = by.get(cl, [])
+            states += rng.sample(pool, min(quota, len(pool)))
+    tmp = tempfile.mkdtemp(prefix="sl_toml_")
+    try:
+        cases = [drv_toml.run_case(st, i, rng, tmp) for i, st in enumerate(states)]
+    finally:
+        shutil.rmtree(tmp, ignore_errors=True)
+    slim = [{k: v for k, v in c.items() if k != "toml"} for c in cases]
+    res.add_traces([{"tid": c["id"], "kind": "solve", "events": [dict(c, st=None)]} for c in cases])
+    batches = [slim[i::tlc.NCPU] for i in range(tlc.NCPU) if slim[i::tlc.NCPU]]
+    verd, stat, tstates = tlc.validate("TraceToml.tla", "TraceToml.cfg", batches, ctx.work)
+    res.verd, res.stat = verd, stat
+    res.extra["trace_validation_states"] = tstates
+    res.extra["cases_in_model"] = total
+    res.extra["exhaustive"] = len(states) == total
+    res.extra["distinct_nontrivial"] = len({(c["kind"], tuple(c["forms"]), c["lim"]) for c in cases})
+    res.extra["outcomes"] = {}
+    for c in cases:
+        k = "%s/%s" % (c["ff"], c["ct"])
+        res.extra["outcomes"][k] = res.extra["outcomes"].get(k, 0) + 1
+    res.samples = [{"kind": c["kind"], "forms": c["forms"], "toml": c["toml"], "from_file": c["ff"], "ctor": c["ct"]} for c in cases[:3]]
+    res.assumptions = ["TOML text written by the harness' own emitter (tables as inline tables); LinReg: well-typed forms only (its loader has no type gate)"]
+    return conclude("C13", ctx, res, rule="every state of MCToml.tla (kind x {absent,int,float,str,bool,list,table} per schema key x limits table present/absent; "
+                    "quick: a random sample) is written as a TOML file and loaded; the outcome class and, when a component is built, its payload, params()/limits() rows "
+                    "and solved probe are compared with the constructor call on the same values")
+
+
+REGISTRY["C13"] = {"run": run_c13, "replay": lambda ctx, path: 2}
+
+
+# ---------------------------------------------------------------------------------------------
+def run_c11(ctx):
+    import copy
+    import sysloss.components as C
+    import drv_ctor
+    import drv_solve
+    from props_solve import validate_cases
+    from props_struct import validate_twins
+    res = Result()
+    rng = ctx.rng
+    states, cnt = tlc.run_states("MCCtor.tla", "MCCtor.cfg", ctx.work)
+    cnt["name"] = "constructor cases: kind x argument forms (one focus parameter over all forms)"
+    res.mc.append(cnt)
+    if not cnt["ok"]:
+        if "is violated" in cnt["out"]:
+            res.mc_failures.append(cnt["out"][cnt["out"].find("Error:"):][:3000])
+        else:
+            raise tlc.TLCError(cnt["out"][-2000:])
+    cases, solves, twins = [], [], []
+    n_probe = 0
+    probe_every = 9 if ctx.quick else 1
+    for i, st in enumerate(states):
+        case, comp = drv_ctor.run_case(st, i)
+        cases.append(case)
+        if comp is None or (i % probe_every):
+            continue
+        n_probe += 1
+        for vs in ((12.0,) if ctx.quick else (12.0, -9.0)):
+            try:
+                s = drv_ctor.probe_system(copy.deepcopy(comp), st["kind"], vs)
+            except Exception:
+                continue
+            sc = drv_solve.solve_case(s, 10 ** 6 + len(solves))
+            sc["ctor_case"] = i
+            solves.append(sc)
+            if any(f in ("neg", "negsmall", "list_neg") for f in st["a"].values()) and sc["outcome"] == "ok":
+                try:
+                    mag = getattr(C, st["kind"])("X", **drv_ctor.magnitudes(case["kw"]))
+                    s2 = drv_ctor.probe_system(mag, st["kind"], vs)
+                    t2 = drv_solve.solve_case(s2, 0)
+                    twins.append({"id": 2 * 10 ** 6 + len(twins), "clause": "C11.Normalises", "kind": "table", "exact": True,
+                                  "what": "%s %s" % (st["kind"], {k: v for k, v in st["a"].items() if v != "absent"}),
+                                  "a": sc["table"], "b": t2["table"], "outcome": "", "exc": "", "st": sc["st"]})
+                except Exception:
+                    pass
+    slim = [{k: v for k, v in c.items() if k != "kw"} for c in cases]
+    res.add_traces([{"tid": c["id"], "kind": "solve", "events": [dict(c, st=None, kw=repr(c["kw"])[:300])]} for c in cases])
+    verd, stat, tstates = tlc.validate("TraceCtor.tla", "TraceCtor.cfg", [slim[i::tlc.NCPU] for i in range(tlc.NCPU) if slim[i::tlc.NCPU]], ctx.work)
+    res.verd, res.stat = verd, stat
+    res.extra["trace_validation_states"] = tstates
+    validate_cases(ctx, res, solves)
+    if twins:
+        validate_twins(ctx, res, twins)
+    res.extra["constructor_cases"] = len(cases)
+    res.extra["exhaustive"] = True
+    res.extra["probes_solved"] = len(solves)
+    res.extra["normalisation_twins"] = len(twins)
+    res.extra["outcomes"] = {}
+    for c in cases:
+        res.extra["outcomes"][c["outcome"]] = res.extra["outcomes"].get(c["outcome"], 0) + 1
+    res.extra["distinct_nontrivial"] = len(cases)
+    res.samples = [{"kind": c["kind"], "forms": {k: v for k, v in c["a"].items() if v != "absent"}, "outcome": c["outcome"]} for c in cases[:4]]
+    res.assumptions = ["outside the lattice: scalar strings (except Rectifier rs), a limits argument that is not a dict, 2-D tables with a single io column",
+                       "that params() displays a raw negative ig is recorded, not judged; normalisation is judged on behaviour (identical probe tables)"]
+    return conclude("C11", ctx, res, rule="every state of MCCtor.tla is executed against the real constructor (exception class, stored magnitudes); accepted components are put "
+                    "into Source - X - loads probes (quick: every 9th) whose solved rows must show no negative loss, efficiency <= 100 %, no passive gain; arguments given with "
+                    "negative signs must behave exactly like their magnitudes")
+
+
+REGISTRY["C11"] = {"run": run_c11, "replay": lambda ctx, path: 2}
